@@ -1293,6 +1293,64 @@ many_users(int nusers, int cancel_last)
 	VT->traces++;
 }
 
+/* a user whose uid does not fit a signed int (an NFS nobody, 4294967294) next to 15 others: all add a task (the big one two; the dump-
+ * everybody path writes the files), then the big one cancels its second task in a quiet interval (the
+ * per-user path writes its file), clean shutdown, restart: exactly one task of his, and the others' */
+static void
+big_uid(void)
+{
+	static struct rs_task_s rs[HX_MAXTASKS];
+	char req[1024];
+	struct hx_reply_s rp;
+	const unsigned big = 4294967294u;
+	int n, nbig = 0, nother = 0;
+
+	snprintf(hist, sizeof(hist), "users 2000..2014 and 4294967294 add one task each, 4294967294 a second one (N2nd), CHKPT, it cancels N2nd, final checkpoint, restart");
+	vd_desc("%s", hist);
+	for (int i = 0; i < 16; i++) {
+		const unsigned u = i < 15 ? 2000u + (unsigned)i : big;
+		size_t o = (size_t)snprintf(req, sizeof(req), "BEGIN:VCALENDAR\nVERSION:2.0\nMETHOD:PUBLISH\nBEGIN:VEVENT\nUID:N%d\nSUMMARY:job\nDTSTART:20300101T000020Z\nEND:VEVENT\nEND:VCALENDAR\n", i);
+		hx_request(&rp, u, req, o);
+		VT->transitions++;
+		if (rp.nsucc != 1) {
+			report("reply", "ADD/refused", "user %u's task was refused", u);
+			return;
+		}
+	}
+	for (int step = 0; step < 2; step++) {
+		/* the second task goes out with the dump-everybody checkpoint as well, its cancellation with the per-user one */
+		size_t o = step == 0
+			? (size_t)snprintf(req, sizeof(req), "BEGIN:VCALENDAR\nVERSION:2.0\nMETHOD:PUBLISH\nBEGIN:VEVENT\nUID:N2nd\nSUMMARY:job\nDTSTART:20300101T000030Z\nEND:VEVENT\nEND:VCALENDAR\n")
+			: (size_t)snprintf(req, sizeof(req), "BEGIN:VCALENDAR\nVERSION:2.0\nMETHOD:CANCEL\nBEGIN:VEVENT\nUID:N2nd\nEND:VEVENT\nEND:VCALENDAR\n");
+		hx_request(&rp, big, req, o);
+		VT->transitions++;
+		if (rp.nsucc != 1) {
+			report("reply", "big-uid/refused", "request %d of user %u was refused", step, big);
+			return;
+		}
+		chkpnt();
+		VT->transitions++;
+	}
+	n = rs_reload(hx_files, rs);
+	VT->reloads++;
+	if (n < 0) {
+		report("reload-died", "big-uid", "restart dies loading the spool");
+		return;
+	}
+	for (int j = 0; j < n; j++) {
+		if (!strcmp(rs[j].uid, "N2nd")) {
+			report("reload-set", "big-uid/cancelled-task-back", "user %u cancelled N2nd (acknowledged, checkpointed), yet a restart schedules it again", big);
+			return;
+		}
+		if (rs[j].owner == big) nbig++; else nother++;
+	}
+	if (nbig != 1 || nother != 15) {
+		report("reload-set", "big-uid/missing", "restart schedules %d tasks of user %u and %d of the others, expected 1 and 15", nbig, big, nother);
+		return;
+	}
+	VT->traces++;
+}
+
 /* one user with K tasks under K distinct UIDs (the UID table has to overflow into its further levels), final
  * checkpoint, restart: every UID must be back under its own name */
 static void
@@ -1750,16 +1808,16 @@ enumerate(void)
 				vd_sample("%d users (2000..) add one task each%s, final checkpoint, restart", n, cl ? ", user 2000 cancels" : "");
 			}
 		}
-		for (int q = 0; q < 4 + 6; q++) {
+		for (int q = 0; q < 4 + 6 + 1; q++) {
 			static const int kk[] = {150, 200, 257, 290};
 			if (!vd_next()) continue;
-			vd_shape(q < 4 ? "many-tasks/%d" : "hostile-text/%d", q < 4 ? kk[q] : q - 4);
+			vd_shape(q < 4 ? "many-tasks/%d" : q < 10 ? "hostile-text/%d" : "big-uid/%d", q < 4 ? kk[q] : q - 4);
 			memset(VT, 0, sizeof(*VT));
 			fflush(stdout);
 			pid_t c = fork();
 			if (c == 0) {
 				prctl(PR_SET_PDEATHSIG, SIGKILL);
-				if (q < 4) many_tasks(kk[q]); else hostile_text(q - 4);
+				if (q < 4) many_tasks(kk[q]); else if (q < 10) hostile_text(q - 4); else big_uid();
 				fflush(stdout);
 				_exit(0);
 			}
@@ -1773,7 +1831,7 @@ enumerate(void)
 			vd_count("traces", VT->traces);
 			vd_count("reloads", VT->reloads);
 			vd_nontrivial();
-			if (q < 4) vd_sample("one user, %d tasks, final checkpoint, restart", kk[q]); else vd_sample("escapes in text fields, variant %d", q - 4);
+			if (q < 4) vd_sample("one user, %d tasks, final checkpoint, restart", kk[q]); else if (q < 10) vd_sample("escapes in text fields, variant %d", q - 4); else vd_sample("a uid beyond INT_MAX through both checkpoint paths");
 		}
 		return;
 	}
